@@ -362,12 +362,15 @@ fn c02_classify(variant: Variant, o: &WalkOutcome) -> Option<String> {
             }
             None
         },
-        Variant::Dot | Variant::DotDot | Variant::Through => {
-            if extra.is_empty() && !dup {
-                return Some("walk-with-semantic-prefix-components".into());
+        Variant::Dot => {
+            // recorded: a `.` component in the invariant prefix is normalised away natively, so
+            // the candidate path never contains it and nothing matches
+            if extra.is_empty() && !dup && o.yielded.is_empty() {
+                return Some("walk-with-current-directory-prefix".into());
             }
             None
         },
+        Variant::DotDot | Variant::Through => None,
         Variant::Plain | Variant::EmptyBase => None,
     }
 }
